@@ -282,6 +282,7 @@ func (f *DefaultFanController) RunInitializationSequence() (err error) {
 		InitializationSequenceMutex.Lock()
 		defer InitializationSequenceMutex.Unlock()
 	}
+	verifTrace(fan.GetId(), "AnalysisStart")
 
 	err1 := f.doComputePwmMap()
 	if err1 != nil {
